@@ -85,7 +85,14 @@ func (nd *KVNode) scanCommand(cmd redcon.Command) (interface{}, error) {
 	if length < count || (count == 0 && length == 0) {
 		nextCursor = []byte("")
 	} else {
-		nextCursor = ay[len(ay)-1]
+		// the cursor is the key without the table (the same as advscan), since
+		// the merge in the server will add the table to the cursor of each partition
+		_, rk, err := common.ExtractTable(ay[len(ay)-1])
+		if err != nil {
+			nextCursor = []byte("")
+		} else {
+			nextCursor = rk
+		}
 	}
 
 	if length > 0 {
